@@ -1,1 +1,4 @@
 import Props.C01
+import Props.C02
+import Props.C03
+import Props.C19
